@@ -1,4 +1,5 @@
 import NibabelModel.Basic.PySlice
+import NibabelModel.Generated.C13Consts
 /-!
 Model/C13 — the image data cache and its aliases (core Lean only).
 
@@ -75,6 +76,11 @@ structure IOp where
   swapped : Bool := false
   deriving DecidableEq, Repr
 
+/-- `np.memmap(..., mode=m)`: is the map read-only (`some true`), copy-on-write (`some false`); other modes do
+    not occur -/
+def MMap.modeRO (m : String) : Option Bool :=
+  if m = "r" then some true else if m = "c" then some false else none
+
 /-- volumeutils.py:446-453 (`array_from_file`): `if mmap and not compressed: mode = 'c' if mmap is True else
     mmap; try: return np.memmap(..., mode=mode)`; `some ro` = the whole-array read IS a memory map, read-only
     iff the mode is `'r'`.  External contract (OS / NumPy): `np.memmap` succeeds exactly for a real file
@@ -83,9 +89,9 @@ def IOp.mapMode (io : IOp) : Option Bool :=
   if io.file = .path then
     match io.mmap with
     | .off => none
-    | .on => some false
-    | .c => some false
-    | .r => some true
+    | .on => MMap.modeRO Gen.C13.mmapTrueMode     -- `'c'` in the current source (regenerated constant)
+    | .c => MMap.modeRO "c"
+    | .r => MMap.modeRO "r"
   else none
 
 def IOp.roMap (io : IOp) : Bool := io.mapMode == some true
@@ -103,7 +109,7 @@ structure Par where
 def Par.ofHdr (h : Hdr) (io : IOp := {}) : Par :=
   match h.scale with
   | some (s, i) => ⟨h.dt, s, i, io⟩
-  | none => ⟨h.dt, 1, 0, io⟩
+  | none => ⟨h.dt, Gen.C13.proxyNoneSlope, Gen.C13.proxyNoneInter, io⟩   -- (1, 0), regenerated from the source
 
 /-- `raw * slope + inter` (`apply_read_scaling`) -/
 def Par.scaled (p : Par) (raw : List Int) : List Int := raw.map (fun v => v * p.slope + p.inter)
@@ -143,6 +149,15 @@ inductive Img
 
 inductive Caching | fill | unchanged | other
   deriving DecidableEq, Repr
+
+/-- the `caching` argument as written in Python -/
+def Caching.ofStr (s : String) : Caching :=
+  if s = "fill" then .fill else if s = "unchanged" then .unchanged else .other
+
+/-- a dtype as written in the source (`np.float64`, …) -/
+def DT.ofNp (s : String) : Option DT :=
+  if s = "np.float64" then some .f8 else if s = "np.float32" then some .f4
+  else if s = "np.int16" then some .i2 else none
 
 inductive HTarget | img | orig
   deriving DecidableEq, Repr
